@@ -18,6 +18,17 @@ pub fn spawn_unipayload_handler(
     cluster_id: ClusterId,
     tx_changes: CorroSender<(ChangeV1, ChangeSource)>,
 ) {
+    spawn_unipayload_handler_with(tripwire, conn, move || cluster_id, tx_changes)
+}
+
+/// Same, but asks for the node's cluster id whenever a frame arrives: the id can be changed while
+/// connections are open, and a frame has to be judged by the id the node has now.
+pub fn spawn_unipayload_handler_with(
+    tripwire: &Tripwire,
+    conn: &quinn::Connection,
+    current_cluster_id: impl Fn() -> ClusterId + Clone + Send + Sync + 'static,
+    tx_changes: CorroSender<(ChangeV1, ChangeSource)>,
+) {
     tokio::spawn({
         let conn = conn.clone();
         let mut tripwire = tripwire.clone();
@@ -46,6 +57,7 @@ pub fn spawn_unipayload_handler(
 
                 tokio::spawn({
                     let tx_changes = tx_changes.clone();
+                    let current_cluster_id = current_cluster_id.clone();
                     async move {
                         let mut framed = FramedRead::new(
                             rx,
@@ -72,7 +84,7 @@ pub fn spawn_unipayload_handler(
                                                         )),
                                                     cluster_id: payload_cluster_id,
                                                 } => {
-                                                    if cluster_id != payload_cluster_id {
+                                                    if current_cluster_id() != payload_cluster_id {
                                                         continue;
                                                     }
                                                     changes.push((change, ChangeSource::Broadcast));
